@@ -880,6 +880,9 @@ _rule_durations = r"({})\s*".format(_rule_durations)
 def ruleDigitDuration(ts: datetime, m: RegexMatch) -> Optional[Duration]:
     # 1 day, 1 night etc.
     num = m.match.group("num")
+    if num and len(num) > 4:
+        # amounts this large overflow the calendar arithmetic
+        return None
     if num:
         for n, _, in _durations:
             unit = m.match.group("d_" + n.value)
